@@ -79,7 +79,14 @@ def c29_one(rep, binary, path, text, sp, ndocs):
         rep.violation("C29:cli:yq-locate:bad_json_output", f"{e}: {r.out[:200]!r}", replay)
         return
     # the expression addresses the array of the stream's documents
-    e = climon.run_cli(binary, ["yq", "-o", "json", "-I0", "--eval-all" if False else "-s", expr, path])
+    try:
+        e = climon.run_cli(binary, ["yq", "-o", "json", "-I0", "-s", expr, path])
+    except climon.NulInArgv:
+        rep.count("skipped.nul_in_expression")
+        return
+    if e.timeout:
+        rep.inconc({"why": "expression not runnable through the CLI (watchdog or NUL byte in argv)", "expr": expr[:120]})
+        return
     if e.crashed:
         rep.violation("C29:cli:expression:crash", f"yq -s {expr!r} died rc={e.rc}", replay)
         return
